@@ -133,6 +133,10 @@ f23_S: {#Base23_S, id_S: "i", labels_S: app_S: "x", extra_S: len(labels_S)}`,
 	/*25*/ `f25_S: {port_S: *8080 | int, host_S: *"localhost" | string, addr_S: "\(host_S):\(port_S)", tags_S: [...string] | *["x"]}`,
 	/*26*/ `f26_S: {a_S?: int, b_S: *a_S | 7, c_S: {d_S?: {e_S: 1}}, f_S: c_S.d_S.e_S | *0}`,
 	/*27*/ `f27_S: {n_S: 3, l_S: [for i in list.Range(0, n_S, 1) {"i\(i)"}], m_S: {for i, v in l_S {(v): i}}, j_S: strings.Join(l_S, ",")}`,
+	// evaluations in which tasks block on each other: reference cycles resolved through a concrete value, mutually dependent comprehensions
+	/*28*/ `f28_S: {lo_S: hi_S - 100, hi_S: lo_S + 100, hi_S: 200}`,
+	/*29*/ `f29_S: {d_S: e_S - 1, e_S: 1 + d_S, e_S: *2 | 0}`,
+	/*30*/ `f30_S: {x_S: {if y_S.v_S > 1 {w_S: 1}}, y_S: {v_S: 2, if x_S.w_S != _|_ {u_S: 3}}, z_S: {for k, v in y_S {"\(k)": v}}}`,
 }
 
 // program imports only the builtin packages its fragments use, so that the
@@ -157,11 +161,12 @@ var snippetPaths = [][]string{
 	{"", "name_S", "tags_S"}, {"", "y_S", "z_S"}, {""}, {""}, {"", "p1_S"}, {"", "kind_S"}, {"", "g_S"}, {"", "w_S"}, {""}, {"", "a_S.b_S", "r_S"},
 	{"", "spec_S", "spec_S.replicas_S"}, {"", "s_S"}, {""}, {"", "have_S"}, {"", "b_S"}, {""}, {"", "list_S", "sum_S"}, {"", "b_S"}, {"", "ok_S"}, {"", "u_S"},
 	{"", "u_S", "w_S", "u_S.va_S"}, {"", "sw_S", "e_S", "e_S.p_S"}, {"", "l_S"}, {"", "labels_S", "extra_S"}, {"", "out_S"}, {"", "addr_S", "tags_S", "port_S"}, {"", "b_S", "f_S"}, {"", "l_S", "m_S", "j_S"},
+	{"", "lo_S"}, {"", "d_S"}, {"", "y_S", "z_S"},
 }
 
 var opKinds = []string{"lookup", "fields", "fields-all", "walk", "unify", "unify-accept", "fill", "fill-value", "validate", "validate-concrete", "default", "eval",
 	"syntax", "syntax-final", "syntax-all", "decode", "json", "yaml", "equals", "subsume", "expr", "refpath", "allows", "kind", "len", "attrs", "compile", "encode", "encode-type",
-	"list", "exists-concrete", "string-int", "buildexpr", "validator-eq", "validator-eq", "decode-ci", "decode-ci"}
+	"list", "exists-concrete", "string-int", "buildexpr", "validator-eq", "validator-eq", "decode-ci", "decode-ci", "fresh-eval", "fresh-eval"}
 
 // rare branches where a badly placed preemption matters most
 var hotSites = []string{"runtime.getKey:upgrade", "runtime.LoadBuiltin:before-lock", "cue.cachedTypeFields:miss", "convert.astFromGoType:miss",
@@ -258,6 +263,7 @@ type env struct {
 	ctx  *cue.Context
 	vals []cue.Value
 	sfx  string
+	src  string // the program text
 
 	// values compiled by "validator-eq" calls, by builtin package: every such value of one
 	// context must be equal to every other, whichever goroutine loaded the package first
@@ -277,7 +283,7 @@ var validators = []string{
 func build(c *Case) *env {
 	ctx := cuecontext.New()
 	root := ctx.CompileString(program(c), cue.Filename("prog.cue"))
-	e := &env{ctx: ctx, sfx: c.Suffix}
+	e := &env{ctx: ctx, sfx: c.Suffix, src: program(c)}
 	first := fmt.Sprintf("f%d_%s", c.Snippets[0], c.Suffix)
 	extra := ctx.CompileString(fmt.Sprintf("extra_%s: {e_%s: 1}\n%s: _", c.Suffix, c.Suffix, first))
 	e.vals = []cue.Value{
@@ -467,6 +473,10 @@ func doOp(e *env, op Op) (res string) {
 		return show(e.ctx.Encode(goT{A: op.Arg, D: &goT{A: 1}}))
 	case "encode-type":
 		return show(e.ctx.EncodeType(goT{}))
+	case "fresh-eval":
+		// a context of its own, created and used inside this call: values of different contexts do not interfere
+		w := cuecontext.New().CompileString(e.src)
+		return show(w.LookupPath(path)) + " VALID " + fmt.Sprint(w.Validate())
 	case "decode-ci":
 		src := fmt.Sprintf("{%s: \"h\", %s: %d, %s: [\"a\", \"b\"], %s: %s: 2}", spelling("hostname", e.sfx, op.Arg), spelling("port", e.sfx, op.Arg),
 			8000+op.Arg, spelling("tags", e.sfx, op.Arg), spelling("nested", e.sfx, op.Arg), spelling("level", e.sfx, op.Arg))
